@@ -493,7 +493,31 @@ fn expanded(path: &str) {
                 other => {
                     let mut o = other.clone();
                     strip_docs(&mut o);
-                    out.push(format!("{{\"kind\":\"item\",\"tokens\":{}}}", esc(&o.to_token_stream().to_string())));
+                    // a key that identifies the item independently of its body, and for inherent impls the members one by one
+                    let (key, members) = match other {
+                        syn::Item::Impl(im) => {
+                            let st = im.self_ty.to_token_stream().to_string();
+                            match &im.trait_ {
+                                Some((_, p, _)) => (format!("impl {} for {}", p.to_token_stream(), st), Vec::new()),
+                                None => {
+                                    let mut ms = Vec::new();
+                                    for ii in &im.items {
+                                        let name = match ii {
+                                            syn::ImplItem::Fn(f) => f.sig.ident.to_string(),
+                                            syn::ImplItem::Const(c) => c.ident.to_string(),
+                                            syn::ImplItem::Type(t) => t.ident.to_string(),
+                                            _ => String::from("?"),
+                                        };
+                                        ms.push(format!("{{\"name\":{},\"tokens\":{}}}", esc(&name), esc(&ii.to_token_stream().to_string())));
+                                    }
+                                    (format!("impl {}", st), ms)
+                                }
+                            }
+                        }
+                        syn::Item::Struct(s) => (format!("struct {}", s.ident), Vec::new()),
+                        _ => (String::from("other"), Vec::new()),
+                    };
+                    out.push(format!("{{\"kind\":\"item\",\"key\":{},\"members\":{},\"tokens\":{}}}", esc(&key), arr(&members), esc(&o.to_token_stream().to_string())));
                 }
             }
         }
